@@ -400,6 +400,15 @@ def check_frozendict(ctx, cls_fq):
             rv = txt(w.expand(p.outcome[1]))
             ctx.ob('T22c', h.fq, 'a normal return hands out the cached integer (errors are raised, on every call)',
                    'FrozenHashError(' not in rv, loc=h.loc, detail='returns %s' % rv[:60])
+    # pickling / copying carries the items only, never the cached (per-process) hash
+    for rn in ('__reduce_ex__', '__reduce__', '__getstate__'):
+        rf = ci.own(rn)
+        if isinstance(rf, FuncInfo):
+            leaks = [n for n in ast.walk(rf.node) if (isinstance(n, ast.Attribute) and n.attr == '_hash') or
+                     (isinstance(n, ast.Constant) and n.value == '_hash') or
+                     (isinstance(n, ast.Attribute) and n.attr == '__dict__')]
+            ctx.ob('T22r', rf.fq, 'the reduction does not carry the cached hash (string hashes are salted per process)', not leaks,
+                   loc='%s:%d' % (rf.module.relpath, leaks[0].lineno if leaks else rf.node.lineno))
     # T8: non-mutating helpers do not write the receiver
     for name in ('updated', '__copy__', '__reduce_ex__', 'fromkeys'):
         m = prog.resolve(ci, name)
